@@ -23,8 +23,8 @@ EXTENDS Codec, Json, IOUtils
 
 Recs == ndJsonDeserialize(IOEnv.VERIF_TRACE)
 
-VARIABLES i, viol
-vars == <<i, viol>>
+VARIABLES i, viol, obs
+vars == <<i, viol, obs>>
 
 LeafInDomain(e) == /\ ~Neg64(e.ts) /\ RLen(e.cert) <= Max24 /\ RLen(e.ikh) = 32
                    /\ (~e.arch => InRange40(e.idx))
@@ -105,17 +105,25 @@ Checks(r) == CASE r.k = "enc" -> EncChecks(r)
                [] r.k = "pp" -> PPChecks(r)
                [] OTHER -> {<<"unknown record kind", r.id>>}
 
+\* Not a formula of the property (which leaves it open), only counted:
+\* ParseExtensions accepted a field with bytes behind the leaf_index extension.
+ExtTrailingAccepted(r) ==
+    r.k = "extp" /\ r.panic = "" /\ r.ok /\
+    LET s == ScanExt(r.in, Start) IN s.ok /\ ~AtEnd(r.in, s.c)
+
 MaxViol == 60
 
-Init == i = 1 /\ viol = {}
+Init == i = 1 /\ viol = {} /\ obs = 0
 Step == /\ i <= Len(Recs)
         /\ viol' = IF Cardinality(viol) < MaxViol THEN viol \cup Checks(Recs[i]) ELSE viol
+        /\ obs' = IF ExtTrailingAccepted(Recs[i]) THEN obs + 1 ELSE obs
         /\ i' = i + 1
 Done == /\ i = Len(Recs) + 1
         /\ PrintT(<<"SCENARIO", "codec", viol>>)
+        /\ PrintT(<<"OBSERVED", "ext-trailing-accepted", obs>>)
         /\ PrintT(<<"TRACE-END", Len(Recs)>>)
         /\ i' = i + 1
-        /\ UNCHANGED viol
+        /\ UNCHANGED <<viol, obs>>
 Next == Step \/ Done
 TraceSpec == Init /\ [][Next]_vars
 =============================================================================
